@@ -126,8 +126,80 @@ fn orders_all() -> Vec<usize> {
     v
 }
 
-pub struct Families {
-    pub scenarios: Vec<Scenario>,
+/// Scenarios whose set-up is a state reached by the sequential search ("start from
+/// non-initial states"): every distinct state within `depth` calls of the initial state
+/// becomes a set-up; the threads run every pair of a small state dependent alphabet.
+pub fn frontier(name: &str, cfg: &Config, depth: usize, max_states: usize) -> Vec<Scenario> {
+    use crate::model::{Model, Profile, alphabet};
+    use crate::oracle::ClassTable;
+    let sut = Sut::new(cfg);
+    let classes = ClassTable::new(sut.policy);
+    let mut profile = Profile::small();
+    profile.max_held = 2;
+    let mut seen = std::collections::HashSet::new();
+    let m0 = Model::new(cfg);
+    let b0 = sut.bufs.snapshot();
+    seen.insert(crate::seq::state_key(&b0, &m0));
+    let mut all: Vec<(Vec<Op>, Model)> = vec![(vec![], m0.clone())];
+    let mut frontier_states = vec![(b0, m0, Vec::<Op>::new())];
+    let mut bytes = Vec::new();
+    'outer: for _ in 0..depth {
+        let mut next = vec![];
+        for (b, m, path) in &frontier_states {
+            for op in alphabet(m, cfg, &profile) {
+                sut.bufs.restore(b);
+                let res = sut.apply(&op);
+                if res.is_panic() {
+                    continue;
+                }
+                let mut m2 = m.clone();
+                let mut v = vec![];
+                crate::oracle::step(&mut m2, cfg, &classes, &op, &res, None, &sut, &mut v);
+                if !v.is_empty() {
+                    continue;
+                }
+                sut.bufs.snapshot_into(&mut bytes);
+                if seen.insert(crate::seq::state_key(&bytes, &m2)) {
+                    let mut p2 = path.clone();
+                    p2.push(op.clone());
+                    all.push((p2.clone(), m2.clone()));
+                    next.push((bytes.clone(), m2, p2));
+                    if all.len() >= max_states {
+                        break 'outer;
+                    }
+                }
+            }
+        }
+        frontier_states = next;
+    }
+    let spec = &cfg.classing;
+    let mut out = vec![];
+    for (si, (path, m)) in all.iter().enumerate() {
+        let mut alpha = vec![
+            a(g(spec, 0, Some(0))),
+            a(g(spec, 7, Some(0))),
+            a(g(spec, HUGE_ORDER, Some(0))),
+            a(g(spec, 0, None)),
+            a(Op::Drain),
+        ];
+        let held: Vec<(usize, usize)> = m.held.iter().map(|(&s, &o)| (s, o)).collect();
+        if let Some(&(s0, o0)) = held.first() {
+            alpha.push(u(p(spec, s0, o0, Some(0))));
+        }
+        if held.len() > 1 {
+            let (s1, o1) = *held.last().unwrap();
+            if o1 >= 7 {
+                // two different parts of the same block
+                let half = 1usize << (o1 - 1);
+                alpha.push(u(p(spec, s1, o1 - 1, None)));
+                alpha.push(u(p(spec, s1 + half, o1 - 1, Some(0))));
+            } else {
+                alpha.push(u(p(spec, s1, o1, None)));
+            }
+        }
+        out.extend(pairs(&format!("{name}/state{si}"), cfg, path, &alpha));
+    }
+    out
 }
 
 /// `level`: 0 = quick, 1 = thorough (more set-ups, triples, 2x2)
@@ -500,6 +572,20 @@ pub fn generate(level: usize) -> Vec<Scenario> {
             ));
             alpha.push(seq2(TOp::Do(g(&s1, 0, Some(0))), TOp::Do(g(&s1, 0, Some(0)))));
             out.extend(pairs(&format!("F10-2x2-{n}"), c, &[], &alpha));
+        }
+    }
+
+    // ---- F13: set-ups from the sequential search frontier
+    {
+        let fd = if level > 0 { 2 } else { 1 };
+        let cap = if level > 0 { 150 } else { 60 };
+        for (n, cfg) in [
+            ("1tree-free", Config::new(TREE_FRAMES, s1.clone(), InitMode::FreeAll)),
+            ("2tree-free", Config::new(2 * TREE_FRAMES, s1.clone(), InitMode::FreeAll)),
+            ("2tree-alloc", Config::new(2 * TREE_FRAMES, s1.clone(), InitMode::AllocAll)),
+            ("3tree-free-simple2", Config::new(3 * TREE_FRAMES, s2.clone(), InitMode::FreeAll)),
+        ] {
+            out.extend(frontier(&format!("F13-frontier-{n}"), &cfg, fd, cap));
         }
     }
 
